@@ -43,11 +43,20 @@ bool Interp::checkEdge(int f, const dd_edge& e, const Table& T, const char* what
 bool Interp::produce(int dst, int f, dd_edge* e, const Table& T, const char* what)
 {
     if (!checkEdge(f, *e, T, what)) { delete e; return false; }
+    Table T2 = T;
+    if (W.fs[f].range == 'R') {
+        // real values: the library rounds (terminal precision 1e-5, float mantissa), so after the
+        // result has been checked against the model within tolerance, the model continues from
+        // the library's value at each point -- otherwise rounding drift accumulates over chains
+        Table got; Failure fl;
+        if (expandEdge(W, f, *e, got, fl))
+            for (size_t i = 0; i < T2.size(); i++) if (!T2[i].isUn() && got[i].t == VR && sameVal(got[i], T2[i])) T2[i] = got[i];
+    }
     // classify the function
     bool constant = true;
     for (size_t i = 1; i < T.size(); i++) if (!exactVal(T[i], T[0])) { constant = false; break; }
     if (!constant) R.labels.add("nonconstant_result");
-    W.setSlot(dst, f, e, T);
+    W.setSlot(dst, f, e, T2);
     return true;
 }
 
@@ -448,6 +457,17 @@ bool Interp::doUnary(const Step& s)
     if (W.fs[fa].dom != W.fs[fc].dom) { skip("un-domain"); return true; }
     if (op != "INDEXSET" && W.fs[fa].rel != W.fs[fc].rel) { skip("un-shape"); return true; }
     if (op == "INDEXSET") return true;     // handled in doExtra
+    // known finding (known_findings.json, KF-C05-distinc-identity): excluded from the campaign by
+    // construction and counted; the corpus replays it in strict mode
+    if (op == "DIST_INC" && W.fs[fa].rel && W.fs[fa].red == 'I' && !strictErrors) {
+        R.labels.add("excluded.distinc_identity_operand");
+        return true;
+    }
+    // known finding KF-C10-identity-zero-to-evplus
+    if (op == "COPY" && W.fs[fa].rel && W.fs[fa].red == 'I' && W.fs[fa].label != 'P' && W.fs[fc].label == 'P' && !strictErrors) {
+        R.labels.add("excluded.copy_identity_zero_to_evplus");
+        return true;
+    }
     ModelRes M = modelUnary(W, op, fa, W.slots[size_t(src)].T, fc);
     if (!M.defined) { skip(M.skipwhy); return true; }
     unary_factory* UFc = unaryFactory(op);
@@ -488,7 +508,7 @@ bool Interp::doBinary(const Step& s)
     if (!liveSlot(a) || !liveSlot(b) || dst < 0 || dst > 63 || !okForest(fc)) { skip("bin-operands"); return true; }
     const int fa = W.slots[size_t(a)].f, fb = W.slots[size_t(b)].f;
     if (W.fs[fa].dom != W.fs[fc].dom || W.fs[fb].dom != W.fs[fc].dom) { skip("bin-domain"); return true; }
-    ModelRes M = modelBinary(W, op, fa, W.slots[size_t(a)].T, fb, W.slots[size_t(b)].T, fc, a == b);
+    ModelRes M = modelBinary(W, op, fa, W.slots[size_t(a)].T, fb, W.slots[size_t(b)].T, fc, strictErrors);
     if (!M.defined) { skip(M.skipwhy); return true; }
     if (!M.mustThrow.empty() && P.property != "C16" && P.property != "C05") { skip("error-case"); return true; }
     binary_factory* BF = binaryFactory(op);
@@ -524,10 +544,12 @@ bool Interp::doBinary(const Step& s)
         if (W.fs[fa].red != W.fs[fc].red || W.fs[fb].red != W.fs[fc].red) R.labels.add("reductions_differ");
     }
     if (a == b) R.labels.add("same_edge_operands");
+    if (M.proneErrors && !strictErrors) R.labels.add("excluded.shortcut_prone_error_points");
     if (!M.mustThrow.empty()) {
         R.labels.add("error_case." + op);
         if (!threw) { delete e; return fail("C05.missing-error", op + " returned normally although the scalar operation is invalid at some point"); }
-        if (std::find(M.mustThrow.begin(), M.mustThrow.end(), code) == M.mustThrow.end()) {
+        if (std::find(M.mustThrow.begin(), M.mustThrow.end(), code) == M.mustThrow.end()
+            && std::find(M.mayThrow.begin(), M.mayThrow.end(), code) == M.mayThrow.end()) {
             delete e; return fail("C05.wrong-error", op + " threw " + ename + ", not the documented code");
         }
         delete e;
@@ -545,9 +567,6 @@ bool Interp::doBinary(const Step& s)
     if (threw) { delete e; return fail("exception", op + " threw " + ename); }
     if (C.operands) {
         if (!(beforeA == *W.slots[size_t(a)].e) || !(beforeB == *W.slots[size_t(b)].e)) { delete e; return fail("operand-changed", op + " changed an operand edge"); }
-        Failure fl;
-        if (C.o1 && !oracleEval(W, fa, *W.slots[size_t(a)].e, W.slots[size_t(a)].T, fl)) { delete e; return fail("operand-changed", op + ": first operand no longer denotes its function: " + fl.msg); }
-        if (C.o1 && !oracleEval(W, fb, *W.slots[size_t(b)].e, W.slots[size_t(b)].T, fl)) { delete e; return fail("operand-changed", op + ": second operand no longer denotes its function: " + fl.msg); }
     }
     {
         bool ca = true, cb = true;
@@ -716,6 +735,7 @@ bool Interp::step(const Step& s, int index)
         else if (op == "un" && s.size() > 1 && s[1] != "INDEXSET") ok = doUnary(s);
         else if (op == "bin") ok = doBinary(s);
         else if (op == "scalar") ok = doScalar(s);
+        else if (op == "strict") { strictErrors = true; }
         else if (op == "dup" || op == "assign" || op == "release" || op == "temps" || op == "clearct"
                  || op == "stales" || op == "audit") ok = doEdgeOps(s);
         else {
@@ -743,6 +763,19 @@ void Interp::run()
     }
     for (size_t i = 0; i < P.steps.size(); i++) {
         if (!step(P.steps[i], int(i))) return;
+    }
+    // every edge still held at the end must still denote its function (catches in-place damage
+    // to shared nodes by an operation that returned a correct result)
+    if (C.operands && !C.allslots) {
+        for (size_t sl = 0; sl < W.slots.size(); sl++) {
+            if (!liveSlot(int(sl))) continue;
+            Failure fl;
+            if (!oracleEval(W, W.slots[sl].f, *W.slots[sl].e, W.slots[sl].T, fl)) {
+                fail("operand-changed", "at the end of the program slot " + std::to_string(sl) + " no longer denotes its function: " + fl.msg);
+                R.failStep = int(P.steps.size());
+                return;
+            }
+        }
     }
     // classification labels from the world
     for (size_t f = 0; f < W.fs.size(); f++) {
